@@ -29,3 +29,33 @@
 pub mod bdd_arithmetic;
 pub mod blind_rotation;
 pub mod circuit_bootstrapping;
+
+/// Verification hooks (feature `verif-hooks`, off by default): a process-global callback invoked at
+/// the work-item boundaries of the multi-threaded loops. A no-op while no callback is installed.
+#[cfg(feature = "verif-hooks")]
+pub mod verif_hooks {
+    use std::sync::OnceLock;
+
+    #[derive(Clone, Copy, Debug, PartialEq, Eq, Hash)]
+    pub enum Point {
+        ChunkStart,
+        ItemStart,
+        ItemEnd,
+    }
+
+    pub type Callback = fn(op: &'static str, point: Point, worker: usize, index: usize);
+
+    static CALLBACK: OnceLock<Callback> = OnceLock::new();
+
+    /// Installs the callback; returns `false` if one was already installed.
+    pub fn set_callback(cb: Callback) -> bool {
+        CALLBACK.set(cb).is_ok()
+    }
+
+    #[inline]
+    pub fn at(op: &'static str, point: Point, worker: usize, index: usize) {
+        if let Some(cb) = CALLBACK.get() {
+            cb(op, point, worker, index)
+        }
+    }
+}
